@@ -79,7 +79,7 @@ def plan(tier, seed, acts_extra=(), lvl2=True, nonsq=False):
             runs.append(dict(seeds=seeds, operands=ops2, small=ops2[:2], acts=acts | {"Kronecker3", "Product3", "BlockDiag3"},
                              lvl=2, dim=4, ebound=12))
             runs.append(dict(seeds=seeds, operands=seeds, small=ops2[:3], acts=acts | {"Product3"}, lvl=4, dim=4,
-                             ebound=12, simulate=300))
+                             ebound=12, simulate=40))
     return runs
 
 
